@@ -1,12 +1,14 @@
 (** ClassOf: the tokenising parser of benchunit/parse.go ([class_of]) decides
-    exactly the one-pass specification [spec_class]: Binary iff a token equal
-    to B, MB or bytes occurs in the numerator. *)
+    exactly the one-pass scan with the three spellings B, MB, bytes
+    ([narrow_class]); the property's [spec_class] (every spelling of bytes:
+    prefixed symbols, the word) is the same scan with more tokens, so ClassOf
+    is sound for it (Binary only if bytes are in the numerator), complete on
+    units without the other spellings, and refuted on "KiB/s" (known finding
+    C10_classof_byte_spellings). *)
 From Coq Require Import ZArith Lia Bool List.
 From Perf Require Import Base.Bytes Base.B64 Base.FmtFixed Model.Scale Model.ScaleSpec.
 Import ListNotations.
 
-Definition hit (t : bytes) (d : bool) : bool := is_bytes_tok t && negb d.
-Definition hit_pair (x : bytes * bool) : bool := let '(t, d) := x in is_bytes_tok t && negb d.
 
 (** Binary iff some numerator token is B, MB or bytes (tokens as the parser yields them) *)
 Theorem class_binary_iff u :
@@ -28,7 +30,8 @@ Proof.
     congruence.
 Qed.
 
-(** ** agreement with the one-pass specification *)
+(** ** agreement of the token stream with the one-pass scan, for any set of
+    byte tokens that does not contain the empty token *)
 
 Lemma sep_at_shorter s k r : sep_at s = Some (k, r) -> (length r < length s)%nat.
 Proof.
@@ -88,14 +91,20 @@ Proof.
       f_equal. apply IH; cbn [length] in *; lia.
 Qed.
 
+Section Scan.
+Variable P : bytes -> bool.
+Hypothesis P_nil : P [] = false.
+
+Definition hit (t : bytes) (d : bool) : bool := P t && negb d.
+Definition hit_pair (x : bytes * bool) : bool := let '(t, d) := x in P t && negb d.
+
 Definition T (s : bytes) (d : bool) : bool := existsb hit_pair (unit_tokens (S (length s)) s d).
 
 Lemma T_unfold s d : T s d = hit (fst (split_tok s)) d || T (snd (split_tok s)) d.
 Proof.
-  destruct s as [|c r]; [reflexivity|].
+  destruct s as [|c r]; [unfold T, hit; cbn; now rewrite P_nil|].
   unfold T at 1. cbn [unit_tokens split_tok]. destruct (sep_at (c :: r)) as [[k r']|] eqn:E.
-  - cbn [fst snd]. unfold hit. cbn [is_bytes_tok beq orb andb].
-    replace (is_bytes_tok []) with false by reflexivity. cbn [andb orb].
+  - cbn [fst snd]. unfold hit. rewrite P_nil. cbn [andb orb].
     unfold T. cbn [unit_tokens]. rewrite E. reflexivity.
   - rewrite take_tok_split by lia. cbn [split_tok]. rewrite E.
     destruct (split_tok r) as [t r''] eqn:Er. cbn [fst snd rev app existsb hit_pair].
@@ -115,14 +124,14 @@ Qed.
 
 Lemma scan_spec n : forall s fuel tok d,
   (length s <= n)%nat -> (length s < fuel)%nat ->
-  spec_class_scan fuel s tok d = hit (rev tok ++ fst (split_tok s)) d || T (snd (split_tok s)) d.
+  class_scan P fuel s tok d = hit (rev tok ++ fst (split_tok s)) d || T (snd (split_tok s)) d.
 Proof.
   induction n as [|n IH]; intros s fuel tok d Hn Hf.
-  - destruct s; [|cbn in Hn; lia]. destruct fuel; cbn [spec_class_scan split_tok fst snd];
+  - destruct s; [|cbn in Hn; lia]. destruct fuel; cbn [class_scan split_tok fst snd];
       rewrite app_nil_r; unfold hit, T; cbn; now rewrite orb_false_r.
   - destruct fuel as [|f]; [lia|]. destruct s as [|c r].
-    + cbn [spec_class_scan split_tok fst snd]. rewrite app_nil_r. unfold hit, T. cbn. now rewrite orb_false_r.
-    + cbn [spec_class_scan split_tok]. destruct (sep_at (c :: r)) as [[k r']|] eqn:E.
+    + cbn [class_scan split_tok fst snd]. rewrite app_nil_r. unfold hit, T. cbn. now rewrite orb_false_r.
+    + cbn [class_scan split_tok]. destruct (sep_at (c :: r)) as [[k r']|] eqn:E.
       * cbn [fst snd]. rewrite app_nil_r. fold (hit (rev tok) d). f_equal.
         pose proof (sep_at_shorter _ _ _ E) as L. cbn [length] in *.
         rewrite (T_sep _ d k r' E).
@@ -132,10 +141,69 @@ Proof.
         now rewrite <- app_assoc.
 Qed.
 
-Theorem class_of_spec u : class_of u = spec_class u.
+(** the one-pass scan is "some numerator token of the parser's stream is a byte token" *)
+Lemma class_by_tokens u :
+  class_by P u = if existsb hit_pair (unit_tokens (S (length u)) u false) then Binary else Decimal.
 Proof.
-  unfold class_of, spec_class.
-  change (existsb (fun '(t, d) => is_bytes_tok t && negb d) (unit_tokens (S (length u)) u false))
-    with (T u false).
+  unfold class_by. change (existsb hit_pair (unit_tokens (S (length u)) u false)) with (T u false).
   rewrite (scan_spec (length u)) by lia. cbn [rev app]. now rewrite <- T_unfold.
 Qed.
+
+Theorem class_by_binary_iff u :
+  class_by P u = Binary <->
+  exists t, In (t, false) (unit_tokens (S (length u)) u false) /\ P t = true.
+Proof.
+  rewrite class_by_tokens. destruct (existsb _ _) eqn:E.
+  - split; [intros _|reflexivity].
+    apply existsb_exists in E. destruct E as ((t, d) & Hin & Hh).
+    apply andb_true_iff in Hh as [Ht Hd]. apply negb_true_iff in Hd. subst d. now exists t.
+  - split; [discriminate|]. intros (t & Hin & Ht). exfalso.
+    assert (X : existsb hit_pair (unit_tokens (S (length u)) u false) = true).
+    { apply existsb_exists. exists (t, false). split; [exact Hin|]. cbn. now rewrite Ht. }
+    congruence.
+Qed.
+End Scan.
+
+(** ClassOf is the scan with the code's three spellings *)
+Theorem class_of_narrow u : class_of u = narrow_class u.
+Proof.
+  unfold narrow_class. rewrite class_by_tokens by reflexivity. reflexivity.
+Qed.
+
+(** the property's scan, on the parser's token stream *)
+Theorem spec_class_binary_iff u :
+  spec_class u = Binary <->
+  exists t, In (t, false) (unit_tokens (S (length u)) u false) /\ spec_bytes_tok t = true.
+Proof. apply class_by_binary_iff. reflexivity. Qed.
+
+Lemma narrow_tok_is_spec_tok t : is_bytes_tok t = true -> spec_bytes_tok t = true.
+Proof.
+  unfold is_bytes_tok. rewrite !orb_true_iff, !beq_eq. intros [[ -> | -> ] | -> ]; reflexivity.
+Qed.
+
+(** soundness: ClassOf says Binary only when bytes are in the numerator *)
+Theorem class_of_sound u : class_of u = Binary -> spec_class u = Binary.
+Proof.
+  rewrite class_of_narrow. unfold narrow_class.
+  rewrite (class_by_binary_iff is_bytes_tok eq_refl), spec_class_binary_iff.
+  intros (t & Hin & Ht). exists t. auto using narrow_tok_is_spec_tok.
+Qed.
+
+(** completeness where every byte token in the numerator is spelled B, MB or bytes *)
+Theorem class_of_complete_on u :
+  (forall t, In (t, false) (unit_tokens (S (length u)) u false) -> spec_bytes_tok t = true -> is_bytes_tok t = true) ->
+  class_of u = spec_class u.
+Proof.
+  intros H. destruct (spec_class u) eqn:E.
+  - destruct (class_of u) eqn:F; [reflexivity| |].
+    + apply class_of_sound in F. congruence.
+    + unfold class_of in F. destruct (existsb _ _); discriminate.
+  - apply spec_class_binary_iff in E as (t & Hin & Ht).
+    rewrite class_of_narrow. unfold narrow_class. apply (class_by_binary_iff is_bytes_tok eq_refl).
+    exists t. auto.
+  - unfold spec_class, class_by in E. destruct (class_scan _ _ _ _ _); discriminate.
+Qed.
+
+(** refuted at full strength: kibibytes per second are bytes in the numerator *)
+Theorem class_of_refuted : exists u, spec_class u = Binary /\ class_of u = Decimal.
+Proof. exists (bs "KiB/s"). vm_compute. split; reflexivity. Qed.
